@@ -13597,6 +13597,8 @@ def sequence_map(
         [typing_cast(SpoxSequence, input_sequence.unwrap_type()).elem_type]
         + [
             typing_cast(SpoxSequence, var.unwrap_type()).elem_type
+            if isinstance(var.unwrap_type(), SpoxSequence)
+            else var.unwrap_type()
             for var in additional_inputs
         ],
         body,
